@@ -14,6 +14,7 @@ import os
 import random
 import re
 import shutil
+import time
 import traceback
 from datetime import datetime, timedelta
 from decimal import Decimal, ROUND_HALF_EVEN
@@ -52,6 +53,44 @@ NOTES = [None, None, 'first', 'two words', '', 'x-1']
 # --------------------------------------------------------------------------- plans (pure data, JSON)
 def dt_tuple(d):
     return [d.year, d.month, d.day, d.hour, d.minute, d.second, d.microsecond]
+
+
+TZS = ['CET-1CEST,M3.5.0,M10.5.0/3', 'EST5EDT,M3.2.0,M11.1.0']     # POSIX rules: no tzdata needed
+
+
+def _nth_sunday(year, month, nth):
+    """date of the nth (1..4) or last (5) Sunday of the month"""
+    days = [d for d in range(1, 32) if _valid(year, month, d) and datetime(year, month, d).weekday() == 6]
+    return days[-1] if nth == 5 else days[nth - 1]
+
+
+def _valid(y, m, d):
+    try:
+        datetime(y, m, d)
+        return True
+    except ValueError:
+        return False
+
+
+def gen_dst_instants(rng, n, tz):
+    """UTC clock readings that, misread as local time of a zone with daylight saving, fall into the hour
+    skipped in spring (and the hour repeated in autumn): their local-time epoch order differs from
+    their chronological (= string) order.  The process runs under that TZ for the history."""
+    year = rng.choice([2001, 2019, 2024, 2024, 2025, 2030])
+    if tz.startswith('CET'):
+        spring, autumn = (3, _nth_sunday(year, 3, 5)), (10, _nth_sunday(year, 10, 5))
+    else:
+        spring, autumn = (3, _nth_sunday(year, 3, 2)), (11, _nth_sunday(year, 11, 1))
+    pool = set()
+    m, d = spring
+    for h, mi, sec, us in ((1, 59, 59, 500000), (2, 0, 0, 0), (2, 30, 0, 0), (2, 30, 0, 7), (2, 59, 59, 999999), (3, 0, 0, 0),
+                           (3, 10, 0, 250000), (3, 29, 59, 0), (3, 30, 0, 1), (3, 59, 0, 0), (4, 0, 0, 0), (2, 5, 0, 0), (3, 4, 0, 0)):
+        pool.add(datetime(year, m, d, h, mi, sec, us))
+    m, d = autumn
+    for h, mi in ((0, 59), (1, 30), (2, 10), (2, 50), (3, 0), (3, 40)):
+        pool.add(datetime(year, m, d, h, mi))
+    pool.add(datetime(year, 6, 1, 8, 0, 0))
+    return [dt_tuple(x) for x in rng.sample(sorted(pool), n)]
 
 
 def gen_instants(rng, n):
@@ -129,7 +168,10 @@ def gen_plan(rng, idx, big=False):
     plan = {'idx': idx, 'encrypted': encrypted, 'cipher': rng.choice(['aes_gcm', 'chacha20_poly1305']),
             'hash_length': rng.choice([16, 32, 32, 64]), 'concurrent': rng.choice([1, 2, 3]),
             'chunking': [8192, 65536] if big else rng.choice([[16, 64], [64, 256], [512, 4096]]), 'users': users}
-    instants = gen_instants(rng, nsnaps)
+    # one history in six runs under a daylight-saving local time zone with clock readings around the
+    # transitions (the code must not look at local time at all)
+    plan['tz'] = rng.choice(TZS) if rng.random() < 0.17 else None
+    instants = gen_dst_instants(rng, nsnaps, plan['tz']) if plan['tz'] else gen_instants(rng, nsnaps)
     paths = rng.sample(REL_PATHS, rng.randint(2, 7))
     state, snaps = {}, []
     vseed = rng.randrange(1 << 30)
@@ -156,7 +198,14 @@ def gen_plan(rng, idx, big=False):
         else:
             files = {p: dict(v) for p, v in state.items() if v is not None}
         user = rng.choices(users, [5, 3, 2][:len(users)])[0] if i >= 2 else 'u0'
-        snaps.append({'user': user, 'ts': instants[i], 'note': rng.choice(NOTES), 'files': files})
+        # files written to by someone else between replicat reading them to EOF and recording their
+        # metadata: st_size (and nothing else) then disagrees with the bytes the snapshot holds
+        late = {}
+        if files and rng.random() < 0.3:
+            for p in rng.sample(sorted(files), min(len(files), rng.choice([1, 1, 2]))):
+                sz = files[p]['size']
+                late[p] = ['append', rng.choice([1, 7, 1000, 2000])] if sz == 0 or rng.random() < 0.6 else ['truncate', rng.choice([1, sz // 2 + 1, sz])]
+        snaps.append({'user': user, 'ts': instants[i], 'note': rng.choice(NOTES), 'files': files, 'late': late})
     plan['snapshots'] = snaps
     queries = []
 
@@ -293,6 +342,25 @@ class Exec:
             os.utime(f, ns=(v['mtime_ns'], v['mtime_ns']))
             truth[str(f.resolve())] = (data, v['mtime_ns'])
         r = await self.unlocked(spec['user'])
+        late = {str((src / rel).resolve()): (how, v) for rel, (how, v) in spec.get('late', {}).items()}
+        if late:
+            original, done = r.read_metadata, set()
+
+            def read_metadata_after_late_write(file):
+                target = os.readlink(f'/proc/self/fd/{file}') if isinstance(file, int) else str(file)
+                if target in late and target not in done:
+                    done.add(target)
+                    how, n = late[target]
+                    size = os.path.getsize(target)
+                    with open(target, 'r+b') as other:
+                        if how == 'append':
+                            other.seek(0, 2)
+                            other.write(bytes(range(256)) * (n // 256) + bytes(n % 256))
+                        else:
+                            other.truncate(max(0, size - n))
+                    os.utime(target, ns=(truth[target][1], truth[target][1]))
+                return original(file)
+            r.read_metadata = read_metadata_after_late_write
         self.script.append(datetime(*spec['ts']))
         res = await asyncio.wait_for(r.snapshot(paths=[src], note=spec['note']), CMD_TIMEOUT)
         if self.script:
@@ -301,6 +369,9 @@ class Exec:
         files = []
         for j, fd in enumerate(res.data['files']):
             data, mt = truth[fd['path']]
+            if sum(c['range'][1] - c['range'][0] for c in fd['chunks']) != len(data):
+                self.viol('ranges_not_content', f'the chunk ranges recorded for {fd["path"][-20:]!r} add up to '
+                          f'{sum(c["range"][1] - c["range"][0] for c in fd["chunks"])}, {len(data)} bytes were read')
             files.append({'path': fd['path'], 'fid': sid * 100 + j, 'ranges': [list(c['range']) for c in fd['chunks']],
                           'content': data, 'mtime_ns': mt, 'meta': dict(fd['metadata']), 'digest': fd['digest']})
         rec = {'sid': sid, 'user': spec['user'], 'name': res.name, 'tag': res.tag, 'location': res.location,
@@ -466,13 +537,23 @@ class Exec:
 def execute(plan, scratch: Path):
     ex = Exec(plan, scratch)
     scratch.mkdir(parents=True, exist_ok=True)
+    old_tz = os.environ.get('TZ')
     try:
+        if plan.get('tz'):
+            os.environ['TZ'] = plan['tz']
+            time.tzset()
         with contextlib.redirect_stderr(io.StringIO()), contextlib.redirect_stdout(io.StringIO()):
             asyncio.run(ex.go())
     except Exception as e:
         ex.viol('exception', f'history could not be executed: {type(e).__name__}: {str(e)[:160]}', None, traceback.format_exc()[-1200:])
         ex.failed = True
     finally:
+        if plan.get('tz'):
+            if old_tz is None:
+                os.environ.pop('TZ', None)
+            else:
+                os.environ['TZ'] = old_tz
+            time.tzset()
         shutil.rmtree(scratch, ignore_errors=True)
     return ex
 
@@ -819,8 +900,8 @@ def probe_regex_combination(scratch: Path, rep: Report):
 
 # --------------------------------------------------------------------------- the check
 RULE = ('case = one history: 2-8 snapshots by up to 3 users (own / same family other key / other family) of an evolving tree '
-        '(paths appear, change, keep content with a new mtime, disappear) at scripted pairwise distinct utcnow() instants '
-        '(same second different microseconds incl. 0, second...year roll-overs, years 1..9999, not in chronological order), '
+        '(paths appear, change, keep content with a new mtime, disappear; some files appended to / truncated between being read and being stat-ed) at scripted pairwise distinct utcnow() instants '
+        '(same second different microseconds incl. 0, second...year roll-overs, years 1..9999, not in chronological order; one history in six under a daylight-saving TZ with readings in the skipped / repeated hour), '
         'then restore / list-snapshots / list-files queries with 0-2 snapshot and file patterns each and every kind of column '
         'selection, refused deletes, a delete by printed names, and the queries again; non-trivial = at least two readable '
         'snapshots share a path with different versions; distinct = distinct plan')
@@ -846,7 +927,10 @@ def check_plans(plans, scratch: Path, rep: Report, with_model=True):
         rep.case(repr(plan), nontrivial=nontrivial(plan))
         rep.count('encrypted' if plan['encrypted'] else 'unencrypted')
         rep.count(f'snapshots={len(plan["snapshots"])}')
+        rep.count('tz=' + (plan.get('tz') or 'unset').split(',')[0])
         for s in plan['snapshots']:
+            for how, _ in s.get('late', {}).values():
+                rep.count('late_write=' + how)
             rep.count('by=' + s['user'])
             rep.count('microsecond=0' if s['ts'][6] == 0 else 'microsecond>0')
         for ob in ex.obs:
